@@ -25,6 +25,7 @@ func checkC04(c *Ctx) {
 	ruleOpenKind(c)
 	ruleLPTypestate(c)
 	ruleArity(c)
+	ruleIndexGuard(c)
 	c.Assume("implicit panics (index, slice bounds, nil dereference), the value-guard panics (Advance, ConsumeIndent, close, wrap), termination of loops that make progress on every path, and stack depth are not decided")
 }
 
@@ -1030,6 +1031,14 @@ func init() {
 			Old: "\t\t\tif rawHTML[i] == '>' {\n\t\t\t\tstate = copyState\n\t\t\t}\n\t\t\ti++", New: "\t\t\tif j := bytes.IndexByte(rawHTML[i:], '>'); j >= 0 {\n\t\t\t\tstate = copyState\n\t\t\t\ti = j + 1\n\t\t\t} else {\n\t\t\t\ti = len(rawHTML)\n\t\t\t}", Expect: "ADVANCE-REL"},
 		Control{Name: "neg-filterRaw-decl-via-IndexByte", Props: []string{"C04"}, File: "html_renderer.go", Negative: true,
 			Old: "\t\t\tif rawHTML[i] == '>' {\n\t\t\t\tstate = copyState\n\t\t\t}\n\t\t\ti++", New: "\t\t\tif j := bytes.IndexByte(rawHTML[i:], '>'); j >= 0 {\n\t\t\t\tstate = copyState\n\t\t\t\ti += j + 1\n\t\t\t} else {\n\t\t\t\ti = len(rawHTML)\n\t\t\t}"},
+		Control{Name: "tab-test-loses-cursor-bound", Props: []string{"C04"}, File: "parse.go",
+			Old: "if p.i < len(p.line) && p.line[p.i] == '\\t' && p.tabRemaining > 0 && p.tabRemaining < tabStopSize {", New: "if p.line[p.i] == '\\t' && p.tabRemaining < tabStopSize {", Expect: "INDEX-GUARD/addLineText"},
+		Control{Name: "bang-lookahead-unbounded", Props: []string{"C04"}, File: "inlines.go",
+			Old: "if pos+1 >= state.spanEnd() || source[pos+1] != '[' {", New: "if source[pos+1] != '[' {", Expect: "INDEX-GUARD/(*InlineParser).parse"},
+		Control{Name: "neg-cursor-bound-flipped", Props: []string{"C04"}, File: "parse.go", Negative: true,
+			Old: "if p.i < len(p.line) && p.line[p.i] == '\\t' && p.tabRemaining > 0 && p.tabRemaining < tabStopSize {", New: "if len(p.line) > p.i && p.line[p.i] == '\\t' && p.tabRemaining > 0 && p.tabRemaining < tabStopSize {"},
+		Control{Name: "neg-bang-lookahead-nested-if", Props: []string{"C04"}, File: "inlines.go", Negative: true,
+			Old: "if pos+1 >= state.spanEnd() || source[pos+1] != '[' {\n\t\t\t\t\t\tpos++\n\t\t\t\t\t\tcontinue\n\t\t\t\t\t}", New: "if end := state.spanEnd(); pos+1 >= end {\n\t\t\t\t\t\tpos++\n\t\t\t\t\t\tcontinue\n\t\t\t\t\t} else if source[pos+1] != '[' {\n\t\t\t\t\t\tpos++\n\t\t\t\t\t\tcontinue\n\t\t\t\t\t}"},
 		Control{Name: "declaration-scan-ignores-next", Props: []string{"C04"}, File: "parse_html.go",
 			Old: "\t\t\tfor r.current() != '>' {\n\t\t\t\tif !r.next() {\n\t\t\t\t\treturn NullSpan()\n\t\t\t\t}\n\t\t\t}", New: "\t\t\tfor r.current() != '>' {\n\t\t\t\tr.next()\n\t\t\t}", Expect: "LOOP-N/parseHTMLTag"},
 		Control{Name: "filterRaw-state-without-case", Props: []string{"C04"}, File: "html_renderer.go",
@@ -1135,5 +1144,180 @@ func ruleAdvanceRel(c *Ctx) {
 	c.Analysed["hand_advanced_scanning_loops"] = n
 	if n < 2 {
 		c.Undecided("ADVANCE-REL", "instance-count", token.NoPos, fmt.Sprintf("%d hand-advanced scanning loops found, at least 2 confirmed by hand (filterRaw, parseInfoString)", n))
+	}
+}
+
+// ---------------------------------------------------------------------------------------------
+// INDEX-GUARD
+
+// splitAdd decomposes v into base + k for a constant k >= 0 (k = 0 when v is not such a sum).
+func splitAdd(v ssa.Value) (ssa.Value, int64) {
+	if bo, ok := v.(*ssa.BinOp); ok && bo.Op == token.ADD {
+		if k, ok := constInt(bo.Y); ok && k >= 0 {
+			b, k2 := splitAdd(bo.X)
+			return b, k + k2
+		}
+		if k, ok := constInt(bo.X); ok && k >= 0 {
+			b, k2 := splitAdd(bo.Y)
+			return b, k + k2
+		}
+	}
+	return v, 0
+}
+
+// sameTerm: structural equality of index terms (field loads through the same access path, calls of the same pure
+// accessor on the same receiver, identical arithmetic).
+func sameTerm(a, b ssa.Value) bool {
+	if sameValueDeep(a, b) || sameLoad(a, b) {
+		return true
+	}
+	ca, ok1 := a.(*ssa.Call)
+	cb, ok2 := b.(*ssa.Call)
+	if ok1 && ok2 && ca.Call.StaticCallee() != nil && ca.Call.StaticCallee() == cb.Call.StaticCallee() && len(ca.Call.Args) == len(cb.Call.Args) {
+		for i := range ca.Call.Args {
+			if !sameTerm(ca.Call.Args[i], cb.Call.Args[i]) {
+				return false
+			}
+		}
+		return true
+	}
+	fa, ok1 := a.(*ssa.Field)
+	fb, ok2 := b.(*ssa.Field)
+	if ok1 && ok2 && fa.Field == fb.Field {
+		return sameTerm(fa.X, fb.X)
+	}
+	ba, ok1 := a.(*ssa.BinOp)
+	bb, ok2 := b.(*ssa.BinOp)
+	if ok1 && ok2 && ba.Op == bb.Op {
+		return sameTerm(ba.X, bb.X) && sameTerm(ba.Y, bb.Y)
+	}
+	return false
+}
+
+// upperGuarded: some dominating branch establishes (idxBase + k') < B with k' >= k on the edge leading to blk.
+func upperGuarded(fn *ssa.Function, blk *ssa.BasicBlock, at ssa.Instruction, base ssa.Value, k int64) bool {
+	covers := func(g ssa.Value) bool {
+		gb, gk := splitAdd(g)
+		return sameTerm(gb, base) && gk >= k
+	}
+	for _, b := range fn.Blocks {
+		iff := blockIf(b)
+		if iff == nil {
+			continue
+		}
+		neg := isNegated(iff.Cond)
+		bo, ok := stripNot(iff.Cond).(*ssa.BinOp)
+		if !ok {
+			continue
+		}
+		edge := -1
+		switch bo.Op {
+		case token.LSS: // G < B
+			if covers(bo.X) {
+				edge = 0
+			}
+		case token.GEQ: // G >= B : false edge
+			if covers(bo.X) {
+				edge = 1
+			}
+		case token.GTR: // B > G
+			if covers(bo.Y) {
+				edge = 0
+			}
+		case token.LEQ: // B <= G : false edge
+			if covers(bo.Y) {
+				edge = 1
+			}
+		}
+		if edge < 0 {
+			continue
+		}
+		if neg {
+			edge = 1 - edge
+		}
+		if edgeDominates(b, edge, blk) {
+			return true
+		}
+	}
+	return false
+}
+
+func ruleIndexGuard(c *Ctx) {
+	c.Rule("INDEX-GUARD", "Every read of a byte slice at the cursor (index = a loaded cursor field such as p.i or r.pos) or ahead of a position (index = V + k with a constant k >= 1) in package commonmark is dominated by a branch that established an upper bound on that very index (G < B or the false edge of G >= B, with G the index or the index plus a non-negative constant). Indices counted from the end (len-1, End-1), range/loop counters and positions taken from node spans are outside this rule. A dropped bound on a look-ahead or cursor read is an index-out-of-range panic for input that ends right there.")
+	p := c.P
+	n := 0
+	perFn := map[*ssa.Function]int{}
+	for _, fn := range p.Funcs {
+		if fn.Pkg != p.CMs {
+			continue
+		}
+		eachInstr(fn, func(in ssa.Instruction) {
+			ia, ok := in.(*ssa.IndexAddr)
+			if !ok {
+				return
+			}
+			sl, ok := ia.X.Type().Underlying().(*types.Slice)
+			if !ok {
+				return
+			}
+			if bt, ok := sl.Elem().Underlying().(*types.Basic); !ok || bt.Kind() != types.Uint8 {
+				return
+			}
+			// only reads
+			isRead := false
+			for _, r := range refsOf(ia) {
+				if ld, ok := r.(*ssa.UnOp); ok && ld.Op == token.MUL {
+					isRead = true
+				}
+			}
+			if !isRead {
+				return
+			}
+			base, k := splitAdd(ia.Index)
+			form := ""
+			if ld, ok := base.(*ssa.UnOp); ok && ld.Op == token.MUL {
+				if fa, ok := ld.X.(*ssa.FieldAddr); ok {
+					if _, isParam := fa.X.(*ssa.Parameter); isParam {
+						form = "cursor field"
+					}
+				}
+			}
+			if form == "" && k >= 1 {
+				// not from-the-end arithmetic
+				if bo, ok := base.(*ssa.BinOp); ok && bo.Op == token.SUB {
+					return
+				}
+				form = "look-ahead"
+			}
+			if form == "" {
+				return
+			}
+			// unit-stride loops over the same slice bound the counter by construction
+			if ok, _ := unitStrideOver(ia.Index, ia.X); ok {
+				return
+			}
+			n++
+			perFn[fn]++
+			key := fmt.Sprintf("%s:%s#%d", shortFuncName(fn), strings.ReplaceAll(form, " ", "-"), perFn[fn])
+			g := upperGuarded(fn, ia.Block(), ia, base, k)
+			if !g {
+				// loop-header bound on a counter the index is derived from
+				if ph, ok := base.(*ssa.Phi); ok {
+					if iff := blockIf(ph.Block()); iff != nil {
+						if bo, ok := iff.Cond.(*ssa.BinOp); ok && bo.Op == token.LSS {
+							gb, gk := splitAdd(bo.X)
+							if gb == ssa.Value(ph) && gk >= k && ph.Block().Dominates(ia.Block()) {
+								g = true
+							}
+						}
+					}
+				}
+			}
+			c.Check(g, "INDEX-GUARD", key, ia.Pos(), form+" read without a dominating upper-bound test on its index")
+		})
+	}
+	c.Analysed["guarded_cursor_and_lookahead_reads"] = n
+	if n < 15 {
+		c.Undecided("INDEX-GUARD", "instance-count", token.NoPos, fmt.Sprintf("%d cursor/look-ahead reads found, 23 confirmed by hand", n))
 	}
 }
